@@ -1135,6 +1135,8 @@ def callees_poly(F, t):
             if n.startswith("grin"):
                 out.extend(ix.get(n, []))
     out.extend(c for c in t["ncallables"] if c in F.fns)
+    # workspace trait impls and fn items that upstream generic code runs on behalf of this call (instantiated walk)
+    out.extend(c for c in t.get("bridged", ()) if c not in out)
     return out
 
 
